@@ -204,6 +204,14 @@ def check_rank(args):
         raise argparse.ArgumentTypeError(
             f"Invalid '--rank'/'--position' input: '{args.rank}'. '--lins' is specified. Rank must be an integer corresponding to a LIN position."
         )
+    elif getattr(args, "ictv", False):
+        from sourmash.tax.tax_utils import ICTV_RANKS
+
+        if args.rank in ICTV_RANKS:
+            return args.rank
+        raise argparse.ArgumentTypeError(
+            f"Invalid '--rank' input: '{args.rank}'. '--ictv' is specified. Please choose one of: {', '.join(ICTV_RANKS)}"
+        )
     elif args.rank in standard_ranks:
         return args.rank
     else:
